@@ -25,7 +25,7 @@ From RX.Proofs Require Import LexerProofs NoPanicTokenizer RangeTokenizer RangeA
 From RX.Spec Require Cst CstText CstEnt CstFull CstFullS5.
 From RX.Proofs Require CstRangeFDefs CstRangeFS2 CstRangeGDefs CstRangeGS3 CstRangeG5Defs CstRangeG5.
 From RX.Spec Require CstFullS4 CstFullS6.
-From RX.Proofs Require CstRangeG6Defs CstRangeG6.
+From RX.Proofs Require CstRangeG6Defs CstRangeG6 ErrShiftSubFinal ErrShiftProlog.
 Open Scope N_scope.
 
 (* ---- Proofs/RangeParse.v ---- *)
@@ -326,8 +326,22 @@ Print Assumptions C13_parse_render_attr_ranges_f6.
 
 End G10.
 
-(* ---- Proofs/RangeTokenizer.v ---- *)
+(* ---- Proofs/ErrShiftProlog.v ---- *)
 Module G11.
+Import RX.Proofs.ErrShiftSubFinal. Import RX.Proofs.ErrShiftProlog.
+Theorem C13_ranges_move_with_prolog_whitespace :
+  forall pre ws post opt d,
+  forallb byte_is_space ws = true -> valid_utf8_b post = true -> post <> [] ->
+  prolog_point pre post opt ->
+  parse (pre ++ post) opt = Ok d ->
+  exists d', parse (pre ++ ws ++ post) opt = Ok d' /\ doc_moved (blen pre) (blen ws) d d'.
+Proof. exact ranges_move_with_prolog_whitespace. Qed.
+Print Assumptions C13_ranges_move_with_prolog_whitespace.
+
+End G11.
+
+(* ---- Proofs/RangeTokenizer.v ---- *)
+Module G12.
 Local Notation token := Tokenizer.token.
 Theorem C13_tokenizer_token_ranges :
   forall text (C : Type) (ev : token -> C -> res C)
@@ -339,10 +353,10 @@ Theorem C13_tokenizer_token_ranges :
 Proof. exact tokenizer_token_ranges. Qed.
 Print Assumptions C13_tokenizer_token_ranges.
 
-End G11.
+End G12.
 
 (* ---- Proofs/LexerProofs.v ---- *)
-Module G12.
+Module G13.
 Local Notation token := Tokenizer.token.
 Theorem C13_parse_comment_post :
   forall (text : bytes), forall s acc s' acc', SInv text s ->
@@ -413,7 +427,7 @@ Theorem C13_parse_close_element_post :
 Proof. exact parse_close_element_post. Qed.
 Print Assumptions C13_parse_close_element_post.
 
-End G12.
+End G13.
 
 
 (* the slice shapes of C13, for every node of every parsed rendering of the Cst fragment *)
